@@ -1,9 +1,237 @@
-import Refine.Model.NodeIds
-import Refine.Model.CellStore
+import Refine.Lemmas.NodeIds
 
+/-!
+  C14 part B (and the id-bookkeeping clause of C13): the vertex-id state machine of `ref_node.c` and the
+  cell store of `ref_cell.c` behave like their abstract map / set models, for every operation sequence.
+
+  Models: `Refine/Model/NodeIds.lean`, `Refine/Model/CellStore.lean` (tied to the C by the `nodecell`
+  streams).  Invariants and helper lemmas: `Refine/Lemmas/NodeIds.lean`, `Refine/Lemmas/CellStore.lean`.
+  Every theorem below is unbounded (all states, all sequences); none uses `sorry` or extra axioms.
+-/
 namespace Refine.Props.C14NodeCell
 open Refine.Model.NodeIds
+open Refine.Model.NodeIds.NodeIds
 
-theorem create_n : NodeIds.create.n = 0 := rfl
+/-! ## NodeIds: invariant -/
+
+/-- `NodeInv` (free list acyclic and exactly the invalid slots, `n` = number of valid slots;
+    `sorted_global` strictly increasing, `global[sorted_local[i]] = sorted_global[i]`, every valid slot
+    listed, length `n`) holds after `ref_node_create` -/
+theorem node_create_inv : NodeInv create := create_NodeInv
+
+/-- `ref_node_add` of a non-negative global succeeds and preserves `NodeInv` (growth branch included) -/
+theorem node_add_preserves {s : NodeIds} (h : NodeInv s) {g : Int} (hg : 0 ≤ g) :
+    (s.add g).1 = .ok ∧ NodeInv (s.add g).2.2 := add_NodeInv h hg
+
+/-- a negative global is rejected with `REF_INVALID` and the state is untouched -/
+theorem node_add_negative_rejected (s : NodeIds) {g : Int} (hg : g < 0) : s.add g = (.invalid, 0, s) :=
+  add_neg hg
+
+/-- `ref_node_remove` of a valid slot succeeds and preserves `NodeInv` -/
+theorem node_remove_preserves {s : NodeIds} (h : NodeInv s) {node : Int} (hv : s.validSlot node = true) :
+    (s.remove node).1 = .ok ∧ NodeInv (s.remove node).2 := remove_NodeInv h hv
+
+/-- an invalid slot is rejected with `REF_INVALID` and the state is untouched -/
+theorem node_remove_invalid_rejected (s : NodeIds) {node : Int} (hv : s.validSlot node = false) :
+    s.remove node = (.invalid, s) := remove_invalid hv
+
+/-- `ref_node_remove_without_global` preserves `NodeInv` -/
+theorem node_remove_without_global_preserves {s : NodeIds} (h : NodeInv s) {node : Int}
+    (hv : s.validSlot node = true) :
+    (s.removeWithoutGlobal node).1 = .ok ∧ NodeInv (s.removeWithoutGlobal node).2 :=
+  removeWithoutGlobal_NodeInv h hv
+
+/-- the two `*_invalidates_sorted` removals keep the free-list half of the invariant and the distinctness
+    of live globals (`WeakInv`); the sorted arrays are stale until the next rebuild, as the names say -/
+theorem node_remove_invalidates_sorted_weak {s : NodeIds} (h : WeakInv s) {node : Int}
+    (hv : s.validSlot node = true) :
+    ((s.removeInvalidatesSorted node).1 = .ok ∧ WeakInv (s.removeInvalidatesSorted node).2) ∧
+    ((s.removeWithoutGlobalInvalidatesSorted node).1 = .ok ∧
+      WeakInv (s.removeWithoutGlobalInvalidatesSorted node).2) :=
+  ⟨removeInvalidatesSorted_WeakInv h hv, removeWithoutGlobalInvalidatesSorted_WeakInv h hv⟩
+
+/-- `ref_node_rebuild_sorted_global` re-establishes the full `NodeInv` from `WeakInv` -/
+theorem node_rebuild_restores {s : NodeIds} (h : WeakInv s) : NodeInv s.rebuild := rebuild_NodeInv h
+
+/-- the pool operations do not touch the slot arrays -/
+theorem node_pool_ops_preserve {s : NodeIds} (h : NodeInv s) (g k : Int) :
+    NodeInv (s.pushUnused g) ∧ NodeInv s.popUnused.2.2 ∧ NodeInv (s.initNGlobal k) ∧
+      NodeInv s.nextGlobal.2.2 := by
+  refine ⟨h.congr rfl rfl rfl rfl, ?_, h.congr rfl rfl rfl rfl, ?_⟩
+  · unfold popUnused; split
+    · exact h
+    · exact h.congr rfl rfl rfl rfl
+  · obtain ⟨a, b, c, d⟩ := nextGlobal_keeps s
+    exact h.congr a b c d
+
+/-- operations of the state machine; `invalidateThenRebuild` is the only sound way to use the
+    `*_invalidates_sorted` removals: any number of them, then `rebuild_sorted_global` -/
+inductive Op
+  | add (g : Int) | remove (v : Int) | removeWithoutGlobal (v : Int)
+  | nextGlobal | pushUnused (g : Int) | popUnused | initNGlobal (k : Int) | rebuild
+  | invalidateThenRebuild (vs : List (Bool × Int))
+
+def invalidateAll : NodeIds → List (Bool × Int) → NodeIds
+  | s, [] => s
+  | s, (wog, v) :: rest =>
+    invalidateAll (if wog then (s.removeWithoutGlobalInvalidatesSorted v).2
+                   else (s.removeInvalidatesSorted v).2) rest
+
+def step (s : NodeIds) : Op → NodeIds
+  | .add g => (s.add g).2.2
+  | .remove v => (s.remove v).2
+  | .removeWithoutGlobal v => (s.removeWithoutGlobal v).2
+  | .nextGlobal => s.nextGlobal.2.2
+  | .pushUnused g => s.pushUnused g
+  | .popUnused => s.popUnused.2.2
+  | .initNGlobal k => s.initNGlobal k
+  | .rebuild => s.rebuild
+  | .invalidateThenRebuild vs => (invalidateAll s vs).rebuild
+
+theorem invalidateAll_weak : ∀ (vs : List (Bool × Int)) {s : NodeIds}, WeakInv s → WeakInv (invalidateAll s vs)
+  | [], _, h => h
+  | (wog, v) :: rest, s, h => by
+    unfold invalidateAll
+    apply invalidateAll_weak rest
+    cases hv : s.validSlot v with
+    | true =>
+      cases wog
+      · exact (removeInvalidatesSorted_WeakInv h hv).2
+      · exact (removeWithoutGlobalInvalidatesSorted_WeakInv h hv).2
+    | false =>
+      cases wog <;>
+        simp [removeInvalidatesSorted, removeWithoutGlobalInvalidatesSorted, hv, h]
+
+/-- every operation preserves `NodeInv` (error statuses leave the state unchanged) -/
+theorem node_step_preserves {s : NodeIds} (h : NodeInv s) (o : Op) : NodeInv (step s o) := by
+  cases o with
+  | add g =>
+    rcases Int.lt_or_le g 0 with hg | hg
+    · simp only [step, add_neg hg]; exact h
+    · exact (add_NodeInv h hg).2
+  | remove v =>
+    cases hv : s.validSlot v with
+    | true => exact (remove_NodeInv h hv).2
+    | false => simp only [step, remove_invalid hv]; exact h
+  | removeWithoutGlobal v =>
+    cases hv : s.validSlot v with
+    | true => exact (removeWithoutGlobal_NodeInv h hv).2
+    | false => simp only [step, removeWithoutGlobal, hv]; exact h
+  | nextGlobal => exact (node_pool_ops_preserve h 0 0).2.2.2
+  | pushUnused g => exact (node_pool_ops_preserve h g 0).1
+  | popUnused => exact (node_pool_ops_preserve h 0 0).2.1
+  | initNGlobal k => exact (node_pool_ops_preserve h 0 k).2.2.1
+  | rebuild => exact rebuild_NodeInv h.weak
+  | invalidateThenRebuild vs => exact rebuild_NodeInv (invalidateAll_weak vs h.weak)
+
+/-- **NodeInv for every operation sequence**, by induction over the sequence -/
+theorem node_inv_all_sequences (ops : List Op) : NodeInv (ops.foldl step create) := by
+  suffices ∀ s, NodeInv s → NodeInv (ops.foldl step s) from this _ create_NodeInv
+  induction ops with
+  | nil => intro s h; exact h
+  | cons o rest ih => intro s h; exact ih _ (node_step_preserves h o)
+
+/-! ## NodeIds: refinement to `abs s = (live : global ↦ slot, pool of reusable ids)` -/
+
+/-- `ref_node_local g` returns the slot holding `g` iff `g` is live, `REF_NOT_FOUND` otherwise -/
+theorem node_local_iff_live {s : NodeIds} (h : NodeInv s) (g : Int) :
+    s.localOf g = match s.abs.live g with
+      | some v => (.ok, (v : Int))
+      | none => (.not_found, -1) := localOf_eq h g
+
+/-- the live map is a map: the slot of a live global is the unique valid slot holding it -/
+theorem node_live_spec {s : NodeIds} (h : NodeInv s) {g : Int} {v : Nat} :
+    s.abs.live g = some v ↔ 0 ≤ g ∧ s.global.getD v (-1) = g := liveSlot_eq_some_iff h
+
+/-- `add` refines map insert: `live' = live[g ↦ returned slot]` (the returned slot is the old one when `g`
+    was already live), and no slot that was live is disturbed (frame) -/
+theorem node_add_refines {s : NodeIds} (h : NodeInv s) {g : Int} (hg : 0 ≤ g) :
+    (∀ x, (s.add g).2.2.abs.live x = if x = g then some (s.add g).2.1 else s.abs.live x) ∧
+    (∀ v, 0 ≤ s.global.getD v (-1) → (s.add g).2.2.global.getD v (-1) = s.global.getD v (-1)) :=
+  ⟨add_live h hg, fun _ hv => add_frame h hg hv⟩
+
+/-- `remove` refines map erase, pushes the global id into the pool, and touches no other slot (frame) -/
+theorem node_remove_refines {s : NodeIds} (h : NodeInv s) {node : Int} (hv : s.validSlot node = true) :
+    (∀ x, (s.remove node).2.abs.live x =
+        if x = s.global.getD node.toNat (-1) then none else s.abs.live x) ∧
+    (s.newN ≠ -1 → ∀ x, (s.remove node).2.abs.pool x ↔ x = s.global.getD node.toNat (-1) ∨ s.abs.pool x) ∧
+    (∀ w, w ≠ node.toNat → (s.remove node).2.global.getD w (-1) = s.global.getD w (-1)) := by
+  refine ⟨remove_live h hv, ?_, fun w hw => remove_frame h hv hw⟩
+  intro hnew x
+  obtain ⟨_, _, _, hu, hn, _⟩ := remove_fields h hv
+  simp only [NodeIds.abs, NodeIds.effNew, hu, hn, hnew, if_false, List.mem_cons, or_assoc]
+
+/-- slot reuse: the slot freed by `remove` is the one the next `add` of a new global returns -/
+theorem node_slot_reuse {s : NodeIds} (h : NodeInv s) {node : Int} (hv : s.validSlot node = true)
+    {g : Int} (hg : 0 ≤ g) (hnew : (s.remove node).2.abs.live g = none) :
+    ((s.remove node).2.add g).2.1 = node.toNat := by
+  have h' := (remove_NodeInv h hv).2
+  have hm := (search_none_iff h').2 hnew
+  have hb := (remove_fields h hv).2.1
+  rw [add_miss hg hm]
+  simp only [grow_eq, hb, index2next_ne_empty, if_false, next2index_index2next]
+
+/-- `ref_node_next_global` succeeds and returns an id from the pool; under `PoolInv` that id is not live -/
+theorem node_next_global_not_live (s : NodeIds) :
+    s.nextGlobal.1 = .ok ∧ s.abs.pool s.nextGlobal.2.1 ∧
+      (PoolInv s → s.abs.live s.nextGlobal.2.1 = none) :=
+  ⟨(nextGlobal_mem_pool s).1, (nextGlobal_mem_pool s).2, fun hp => hp.fresh _ (nextGlobal_mem_pool s).2⟩
+
+/-- **trial_vertex_roundtrip** (C13: "a rejected attempt withdraws the trial vertex and its global id"):
+    `abs (remove (add (next_global s))) = abs s`, all three calls succeed, and `NodeInv` still holds -/
+theorem trial_vertex_roundtrip {s : NodeIds} (h : NodeInv s) (hp : PoolInv s) :
+    let r1 := s.nextGlobal
+    let r2 := r1.2.2.add r1.2.1
+    let r3 := r2.2.2.remove (r2.2.1 : Int)
+    r1.1 = .ok ∧ r2.1 = .ok ∧ r3.1 = .ok ∧ NodeInv r3.2 ∧ r3.2.abs = s.abs := trial_roundtrip h hp
+
+/-- consequently the pool invariant itself survives the round trip -/
+theorem trial_vertex_roundtrip_pool {s : NodeIds} (h : NodeInv s) (hp : PoolInv s) :
+    PoolInv ((s.nextGlobal.2.2.add s.nextGlobal.2.1).2.2.remove
+      ((s.nextGlobal.2.2.add s.nextGlobal.2.1).2.1 : Int)).2 := by
+  have he := (trial_roundtrip h hp).2.2.2.2
+  constructor
+  · intro x hx; rw [he] at hx; exact hp.nonneg x hx
+  · intro x hx
+    rw [he] at hx
+    have : ∀ t : NodeIds, t.liveSlot x = t.abs.live x := fun _ => rfl
+    rw [this, he]; exact hp.fresh x hx
+
+/-! ### non-vacuity -/
+
+/-- a concrete non-trivial state: three vertices 0,1,2 then vertex 1 removed and `n_global` initialised -/
+def exState : NodeIds := ((((((create.add 0).2.2.add 1).2.2.add 2).2.2).initNGlobal 3).remove 1).2
+
+example : exState.n = 2 ∧ exState.keys = [0, 2] ∧ exState.unusedStk = [1] ∧ exState.blank = -3 := by decide
+
+example : NodeInv exState :=
+  node_inv_all_sequences [.add 0, .add 1, .add 2, .initNGlobal 3, .remove 1]
+
+theorem exState_pool : PoolInv exState := by
+  have hg : exState.global = [0, -5, 2, -6, -7, -8, -9, -10, -11, -12, -13, -14, -15, -16, -17, -18, -19, -20,
+      -21, -1] := by decide
+  have hpool : ∀ x, exState.abs.pool x ↔ x = 1 ∨ 3 ≤ x := by
+    intro x
+    have h1 : exState.unusedStk = [1] := by decide
+    have h2 : exState.effNew = 3 := by decide
+    simp [NodeIds.abs, h1, h2]
+  constructor
+  · intro x hx; rcases (hpool x).1 hx with h | h <;> omega
+  · intro x hx
+    have hx' := (hpool x).1 hx
+    simp only [NodeIds.liveSlot, hg]
+    split
+    · rfl
+    · rw [List.idxOf?_eq_none_iff]
+      simp only [List.mem_cons, List.not_mem_nil, or_false]
+      omega
+
+/-- the hypotheses of `trial_vertex_roundtrip` are met by `exState`; here the round trip re-uses the
+    pooled id 1 and the freed slot 1 -/
+example : (exState.nextGlobal).2.1 = 1 ∧ (exState.nextGlobal.2.2.add 1).2.1 = 1 ∧
+    ((exState.nextGlobal.2.2.add 1).2.2.remove 1).2 = exState := by decide
+
+example : NodeInv exState ∧ PoolInv exState :=
+  ⟨node_inv_all_sequences [.add 0, .add 1, .add 2, .initNGlobal 3, .remove 1], exState_pool⟩
 
 end Refine.Props.C14NodeCell
